@@ -119,3 +119,26 @@ def swap_pair_rule(chk, P):
     # the evaluation between the swaps takes the context by shared reference
     ev = P.body("expr::Expr::eval")
     chk.require(ev is not None and ev.local_ty(2).startswith("&eval_context::EvalContext"), "WHO", "WHO:Expr::eval-takes-shared-ctx", "Expr::eval(&self, &EvalContext): cannot write the swapped-in map", "Expr::eval's context parameter is `%s`" % (ev.local_ty(2) if ev else "?"))
+
+
+def provided_write_input_rule(chk, P):
+    """The provided TestDriver::write_input is library code: exactly one read-call with its own arguments,
+    whose Result is returned with only the Ok payload replaced by () — a driver error passes through."""
+    from ..core import tab
+    b = P.body("TestDriver::write_input")
+    if not chk.anchor("provided TestDriver::write_input", b):
+        return
+    r = sorted(set(canon(P.sl(b).ret(rb)) for rb in P.cfg(b).return_blocks()))
+    calls = [callee_name(t)[0] for bb, t in b.calls() if callee_name(t)[0] in DRIVER]
+    cl = P.f.closures_of(b.name)
+    pt = tab.predicate_table(P, cl[0]) if len(cl) == 1 else None
+    CALL = "TestDriver::write_input_and_read_output(self, inputs)"
+    form_map = r == ["Result::map(%s, closure({closure#0}))" % CALL] and pt == {(frozenset(), "tuple()")}
+    # the `?` spelling: `self.write_input_and_read_output(inputs)?; Ok(())`
+    rows = set()
+    for pi in tab.paths(P, b, to_return_only=True):
+        rows.add((tuple(sorted((d[1], d[2]) for d in pi.decisions() if d[0] == "variant")), canon(pi.ret())))
+    form_try = rows == {((("Try::branch(%s)" % CALL, ("Continue",)),), "Result::Ok{0: tuple()}"),
+                        ((("Try::branch(%s)" % CALL, ("Break",)),), "FromResidual::from_residual(break!(Try::branch(%s)))" % CALL)}
+    good = (form_map or form_try) and calls == [READ]
+    chk.require(good, "ORG", "ORG:provided-write_input:error-passes-through", "write_input_and_read_output(inputs).map(|_| ()): one call, Err unchanged", "the provided write_input returns %s (driver calls %s, closure %s)" % (r, [c.split("::")[-1] for c in calls], sorted(pt, key=str) if pt else None))
